@@ -152,14 +152,26 @@ func TestKnownCrashBetweenPruneCommits(t *testing.T) {
 	stats.KnownFindingWitness(t, kfCrashMidPrune, reproduced)
 }
 
-// TestKnownCancelledPruneDropsParentMapping: PruneUpto(10) with a 1-byte batch target commits once per block;
-// the context is cancelled when the third commit happens, the loop stops at block 3 and the partial window
-// [0,3) is flushed. Block 3 is now the oldest retained block; the documented carve-out (hash->number of the
-// block just below it, needed by StateAtBlockHash(parent)) is gone: state at block 2 opens by number, not by hash.
+// TestKnownCancelledPruneDropsParentMapping: PruneUpto(10) with a 1-byte batch target commits once per block.
+// (a) The context is cancelled when the third commit happens: the loop stops at block 3 and the partial window
+// [0,3) is flushed. (b) The process dies right after the third commit (crash image). Either way block 3 is now
+// the oldest retained block and the documented carve-out (hash->number of the block just below it, needed by
+// StateAtBlockHash(parent)) is gone: state at block 2 opens by number, not by hash.
 func TestKnownCancelledPruneDropsParentMapping(t *testing.T) {
 	if !stats.Known(kfCancelParentMapping) {
 		t.Skipf("%s is not listed as known", kfCancelParentMapping)
 	}
+	check := func(w *witness, d db.KeyValueStore) (uint64, error, error) {
+		n := w.restartOn(d)
+		o, _, _ := oldest(n.DB)
+		if o == 0 {
+			return 0, nil, nil
+		}
+		_, errNum := w.slotAt(n, o-1)
+		_, _, errHash := n.BC.StateAtBlockHash(w.ch.Blocks[o-1].B.Hash)
+		return o, errNum, errHash
+	}
+	// (a) cancellation
 	w := newWitness()
 	ctx, cancel := context.WithCancel(context.Background())
 	defer cancel()
@@ -168,19 +180,35 @@ func TestKnownCancelledPruneDropsParentMapping(t *testing.T) {
 			cancel()
 		}
 	})
-	pruned, kept, err := pruner.PruneUpto(ctx, w.d, 10, 1)
+	_, kept, err := pruner.PruneUpto(ctx, w.d, 10, 1)
 	w.d.arm(nil)
 	if err != nil {
 		stats.HarnessError("witness: PruneUpto: %v", err)
 	}
-	n := w.restartOn(w.d)
-	oldestBlk, _, _ := oldest(n.DB)
-	_, errNum := w.slotAt(n, kept-1)
-	_, _, errHash := n.BC.StateAtBlockHash(w.ch.Blocks[kept-1].B.Hash)
-	reproduced := kept > 0 && kept < 10 && oldestBlk == kept && errNum == nil && errors.Is(errHash, db.ErrKeyNotFound)
-	t.Logf("%s: cancelled PruneUpto(10) pruned %d blocks, oldest kept %d (database says %d); state at %d by number: %v, by hash: %v (reproduced=%v)",
-		kfCancelParentMapping, pruned, kept, oldestBlk, kept-1, errNum, errHash, reproduced)
-	stats.KnownFindingWitness(t, kfCancelParentMapping, reproduced)
+	oa, numA, hashA := check(w, w.d)
+	cancelRepro := kept > 0 && kept < 10 && oa == kept && numA == nil && errors.Is(hashA, db.ErrKeyNotFound)
+	// (b) crash image after the third commit
+	w2 := newWitness()
+	var image *memory.Database
+	w2.d.arm(func(k int) {
+		if k == 3 {
+			image = w2.d.inner.Copy()
+		}
+	})
+	if _, _, err := pruner.PruneUpto(context.Background(), w2.d, 10, 1); err != nil {
+		stats.HarnessError("witness: PruneUpto: %v", err)
+	}
+	w2.d.arm(nil)
+	crashRepro := false
+	var ob uint64
+	var numB, hashB error
+	if image != nil {
+		ob, numB, hashB = check(w2, newFdb(image))
+		crashRepro = ob > 0 && ob < 10 && numB == nil && errors.Is(hashB, db.ErrKeyNotFound)
+	}
+	t.Logf("%s: cancelled at commit 3: oldest kept %d, state at %d by number: %v, by hash: %v (reproduced=%v); crash image after commit 3: oldest kept %d, by number: %v, by hash: %v (reproduced=%v)",
+		kfCancelParentMapping, oa, oa-1, numA, hashA, cancelRepro, ob, numB, hashB, crashRepro)
+	stats.KnownFindingWitness(t, kfCancelParentMapping, cancelRepro || crashRepro)
 }
 
 // TestKnownMinAgeSampleStaleAfterReorg drives the real service (pruner.Run inside a synctest bubble, virtual
